@@ -71,6 +71,7 @@ type sessTable struct {
 }
 
 type sess struct {
+	longStrings bool // value() returns long strings for VARCHAR columns (rows that fit into few pages' free space)
 	wideCatalog bool
 	env         *core.Env
 	r           *rand.Rand
@@ -237,7 +238,25 @@ func (s *sess) createTable() bool {
 	return true
 }
 
+// firstStrCol: the first VARCHAR column without a B-tree index (-1: none). Only this one is made long, so that the row stays narrower than a page.
+func firstStrCol(t *sessTable) int {
+	for c := range t.t.Cols {
+		if t.t.Cols[c].K == rm.KStr && t.idx[c] != "btree" {
+			return c
+		}
+	}
+	return -1
+}
+
 func (s *sess) value(t *sessTable, col int) rm.Cell {
+	if s.longStrings && t.t.Cols[col].K == rm.KStr && t.idx[col] != "btree" && col == firstStrCol(t) {
+		// rows of 0.3-0.8 KB (2-3.4 KB where the column has no index): a page that is not nearly empty has no room for them
+		n := 300 + s.r.Intn(500)
+		if t.idx[col] == "" {
+			n = 2000 + s.r.Intn(1400)
+		}
+		return rm.Str(fmt.Sprintf("L%d.", s.r.Intn(1000000)) + strings.Repeat(string(rune('a'+s.r.Intn(26))), n))
+	}
 	for {
 		v := gen.Value(s.r, t.t.Cols[col].K, false, false)
 		if t.idx[col] == "btree" && (len(v.S) > 20 || gen.BtreeExtremeInt(v)) {
@@ -633,10 +652,31 @@ func sessCase(env *core.Env, idx int, prop string) *core.CaseResult {
 				res.Nontrivial = true
 				res.Add("nontrivial_cycles", 1)
 			}
+			// half of the reopened databases first get a few WIDE rows: the heap (whose insert position starts at its first page again)
+			// is walked to its tail and grows by a page at once
+			if r.Intn(2) == 0 && !s.dead {
+				t := s.tabs[r.Intn(len(s.tabs))]
+				s.longStrings = true
+				s.bulk(t, 1+r.Intn(4))
+				s.longStrings = false
+				res.Add("sessions_starting_with_wide_rows_after_the_reopen", 1)
+			}
 			// the session between two clean restarts: mixed statements, one statement kind only, or read-only
-			switch kind := []string{"", "", "update", "insert", "delete", "none"}[r.Intn(6)]; kind {
+			switch kind := []string{"", "", "update", "insert", "delete", "none", "bulk"}[r.Intn(7)]; kind {
 			case "none":
 				res.Add("sessions_read_only", 1)
+			case "bulk":
+				// a reopened heap grows by many pages: the first inserts fill the holes earlier deletes left in the front pages, later
+				// ones walk from there to the full tail and append
+				t := s.tabs[r.Intn(len(s.tabs))]
+				if r.Intn(2) == 0 {
+					s.longStrings = true // wide rows: the tail page rarely has room for the first of them
+					s.bulk(t, 20+r.Intn(40))
+					s.longStrings = false
+				} else {
+					s.bulk(t, 150+r.Intn(250))
+				}
+				res.Add("sessions_bulk_insert_into_a_reopened_table", 1)
 			default:
 				s.dml(5+r.Intn(25), kind)
 				res.Add("sessions_"+map[string]string{"": "mixed", "update": "update_only", "insert": "insert_only", "delete": "delete_only"}[kind], 1)
